@@ -338,6 +338,12 @@ var c19StaticErrorQueries = []string{
 	"WITH c AS (SELECT `tags[last]` AS x FROM t) SELECT * FROM c",
 	"SELECT id FROM t WHERE EXISTS (SELECT `w[(0:1:2)]` FROM n)",
 	"SELECT id, nosuchfunction(a) AS x FROM t",
+	"SELECT id FROM t WHERE s LIKE '(%'",
+	"SELECT id, CASE WHEN s LIKE '[%' THEN 1 ELSE 0 END AS x FROM t",
+	"SELECT id, (SELECT w FROM n WHERE w LIKE '(%') AS sub FROM t WHERE id IN (SELECT id FROM t)",
+	"SELECT s, COUNT(*) AS c FROM t GROUP BY s HAVING nosuchfunction(1) = 1",
+	"SELECT id FROM t WHERE a BETWEEN 1 AND nosuchfunction(2)",
+	"SELECT id FROM t WHERE id IN (1, nosuchfunction(2))",
 	"SELECT * FROM t x JOIN u y ON x.`id[first]` = y.id",
 }
 
